@@ -55,6 +55,16 @@ def generate(rng, tier):
                 else:
                     r, chunks = 0, pu.cut(rng, data, "rand")
                 yield pu.frame_line(skip, trim, kind, r, chunks), f"{kind}-{'trim' if trim != pu.REAL_TRIM else 'notrim'}"
+    # degenerate but valid headers in mid-stream (all zero: looks like fill; all ones; idle APID)
+    for h in (dict(ver=0, typ=0, shf=0, apid=0, sf=0, sc=0), dict(ver=7, typ=1, shf=1, apid=2047, sf=3, sc=16383),
+              dict(ver=0, typ=0, shf=0, apid=2047, sf=3, sc=0)):
+        for dl in (1, 2):
+            pk = [pu.mk_packet(rng, 3), pu.mk_packet(rng, dl, **h), pu.mk_packet(rng, 5), pu.mk_packet(rng, dl, **h)]
+            rng.shuffle(pk)
+            data = b"".join(pk)
+            for kind in kinds:
+                chunks = [data] if kind == "bytes" else pu.cut(rng, data, rng.choice([1, 5, "rand"]))
+                yield pu.frame_line(0, pu.REAL_TRIM, kind, -1 if kind == "bytes" else 0, chunks), "special-header"
     # every single cut position of a short two-packet stream, for both streaming kinds
     for skip in (0, 3):
         data = stream(rng, 2, skip)
